@@ -1,6 +1,7 @@
 package checks
 
 import (
+	"encoding/json"
 	"fmt"
 	"strings"
 	"time"
@@ -30,3 +31,8 @@ func firstLine(s string) string {
 }
 
 var _ = fmt.Sprint
+
+func remarshal(in any, out any) {
+	b, _ := json.Marshal(in)
+	json.Unmarshal(b, out)
+}
